@@ -9,7 +9,7 @@ NOT_APPLICABLE["C18"] = ("byte-level encode/decode fidelity and signature covera
 check("C13", "model_checking",
       "TLC explores the implementation-shaped overlay-store model exhaustively against a reference ordinary store "
       "(Refines, BaseUnchanged); every transition of the bounded model is replayed on the real BackedMemDb and the "
-      "recorded observations are validated by TLC against the reference store; random long sequences likewise.",
+      "recorded observations are validated by TLC against the reference store; random long sequences likewise. The batch object of the overlay store is modelled step by step (open, queued set / delete, write, discard, observations in between).",
       "bounds: 2 keys (quick) / 3 keys (thorough) x 2 values x batches <= 2, all base contents, all border pairs; random "
       "sequences over 12 keys sampled; iteration is atomic; MemDB is the reference semantics; chain level: canonical database "
       "digest and live root around every speculative validation / proposal / read-only query, read-only view of the head and of "
@@ -29,7 +29,7 @@ check("C20", "model_checking",
       "steps, announcers pre-empted before RegisterPull) exhaustively within small bounds and checks every property clause "
       "on every transition; TLC-exported schedules are replayed exactly on the real PushPullManager + DefaultPushTracker + "
       "DefaultHolder under a virtual clock with hook gates, and the recorded traces are validated by TLC: property clauses "
-      "on the observed pre/post state of every step (verdict) and equality with the model's prediction (drift).",
+      "on the observed pre/post state of every step (verdict) and equality with the model's prediction (drift). A second push type whose items share the hash VALUES of the first type's items (one registry keyed by type + hash) is part of the model and of the rig.",
       "bounds: 2-3 peers x 2 hashes, delay 2 ticks, horizon 4-5, <= 6 announcements, one pre-empted announcer at a time; "
       "larger instances by random walks; manager-loop forwarding folded into the emitting step; go-cache expiry and the gc "
       "goroutine are outside the schedules; data races are the race detector's verdict, not TLC's",
@@ -48,14 +48,14 @@ check("C01", "model_checking",
       "of seeded random histories is applied by the REAL code on 6 replicas following those schedules (2 in other host time zones, one "
       "genesis with 344 identities); TLC validates the recorded observations against Trace_Replicas (Agreement, SameTransition, "
       "LiveMatchesHead on head hash, roots, flags, epoch, period, next validation time, fee rate, VRF threshold, shards, discrimination "
-      "threshold, validator-view sizes).",
+      "threshold, validator-view sizes). Histories also deploy embedded contracts and include a network before its first validation (nobody validated); growth module Upgrade.tla (upgrade voting, activation, intermediate genesis, restarts / rollbacks / crashes around them on real multi-node worlds) runs as part of the check.",
       _CHAIN_NOTE + "; map-iteration-order coverage is by repetition across the 6 replicas of every block, not exhaustive",
       "TLA+ replicated-state-machine spec + TLC-exported history schedules replayed on real replicas + TLC trace validation", "DESIGN.md#c01")
 check("C02", "model_checking",
       "every block built by the real ProposeBlock / GenerateEmptyBlock from a seeded hostile mempool mix (valid, stale, gapped, "
       "under-funded, wrong-period, wrong-epoch, replayed, malformed transactions of every plain type) travels as bytes to 5 other real "
       "replicas reaching the same head through TLC-exported node-local history shapes and must pass ValidateBlock and AddBlock there; "
-      "clause ProposedAccepted of Trace_Replicas evaluated by TLC on the recorded verdicts.",
+      "clause ProposedAccepted of Trace_Replicas evaluated by TLC on the recorded verdicts. Growth modules: Gas.tla (every relation pattern of a list to the block gas cap) and Filter.tla (the proposer's filter attempts and skips transactions on one check state: FilterLeavesNoTrace, 72 offer patterns realised through real pools and ProposeBlock).",
       _CHAIN_NOTE, "TLA+ spec (Replicas) + TLC-exported schedules + real propose/validate on replicas + TLC trace validation", "DESIGN.md#c02")
 check("C04", "model_checking",
       "Ledger.tla states NonNeg and BlockIssuance over the whole ledger; MC_Ledger checks the issuance bound and the nonce discipline on "
@@ -63,7 +63,9 @@ check("C04", "model_checking",
       "account and identity) is logged and TLC evaluates the clauses with exact BigNat limb arithmetic (Trace_Ledger). Contract stratum: "
       "an edge cover of the contract lifecycle model (ContractOps.tla, <= 1 deviation per operation, incl. recipient = the contract itself / "
       "the sender, failed attempt + credit + operation in one block, sandwich blocks, pre-funded creations) is run on the real node and TLC "
-      "evaluates NonNeg and NoMint on every block with contract transactions (Trace_ContractLedger).",
+      "evaluates NonNeg and NoMint on every block with contract transactions (Trace_ContractLedger). Growth module Rewards.tla: entitlement, "
+      "conservation and category shares of the epoch reward distribution with exact arithmetic, population shapes enumerated by TLC and run through "
+      "the real rewardValidIdentities (known finding: float32 weight sums let categories exceed their share by ~1e-7 relative).",
       _CHAIN_NOTE + "; issuance bound per block = BlockReward + FinalCommitteeReward (+ that sum x epoch length on the validation-finished block)",
       "TLA+ ledger spec with exact arithmetic + TLC model of the abstract ledger + TLC trace validation of real histories", "DESIGN.md#c04")
 check("C05", "model_checking",
@@ -73,7 +75,8 @@ check("C05", "model_checking",
       "targets in every relationship to the signer (self, god, pool, own / foreign invitee, own / foreign delegator, stranger, killed, "
       "undefined). Contract stratum: the same lifecycle edge cover as C04's, judged by OnlySigner over blocks with contract transactions "
       "(no address that signed nothing in the block, is not the proposer and is not a contract ends with less than it started with plus "
-      "what plain transfers of the block credited to it; Trace_ContractLedger).",
+      "what plain transfers of the block credited to it; Trace_ContractLedger). Growth module Lifecycle.tla: the identity lifecycle (status x "
+      "period x transaction type x delegation / stake / penalty situation) as an edge cover realised on real chains, 14 clauses.",
       _CHAIN_NOTE, "TLA+ ledger spec + TLC trace validation of real single-transaction blocks", "DESIGN.md#c05")
 check("C06", "model_checking",
       "MC_Ledger explores include / epoch-change / reorg behaviours of an abstract ledger exhaustively (NoDoubleOnChain, "
@@ -98,7 +101,7 @@ check("C11", "model_checking",
       "importer with its root check (ImportAllOrNothing, CleanRoundTrip checked by TLC); every exported fault case is applied at "
       "seeded byte positions to REAL archives (chain state, 12 000-account state = 3 archive blocks with contract values incl. empty "
       "ones, small state) and imported into a fresh real StateDB; TLC validates accepted => same root and contents, refused => "
-      "empty target, never a panic.",
+      "empty target, never a panic. The histories include failed insertions (content-store fault in a replica's AddBlock, round lost to the empty block) and followers on every replica; SyncStore.tla has the FailedInsert action.",
       _CHAIN_NOTE + "; snapshot byte positions are seeded samples inside each fault region (4 per case quick, 60 thorough), StateDB "
       "archives only (the identity-state archive uses the same ReadTreeFrom2)",
       "TLA+ diff-store model + follower replay on real chains + TLC trace validation", "DESIGN.md#c11")
@@ -117,7 +120,7 @@ check("C17", "model_checking",
       "Switch = ResetTo + fork b, Rollback of the epoch block) with SameResult / PersistComplete / StoreMatchesChain; TLC exports every "
       "complete behaviour; a stratified sample is replayed literally on REAL nodes with a real ValidationCeremony over seeded populations "
       "(good, absent, short-only, no-hash, bad-salt, wrong, reporter, latecomer ... participants; 6 block layouts of the same tx set; "
-      "live vs late nodes) and TLC validates the recorded epoch results (SameResult, AbsentNotValidated, InviteKilled, DeadStaysDead).",
+      "live vs late nodes) and TLC validates the recorded epoch results (SameResult, AbsentNotValidated, InviteKilled, DeadStaysDead). Growth module Qualification.tla: qualifyOneFlip / qualifyFlips / qualifyCandidate / the reporters book transcribed, case tables and populations run on the real functions (19 clauses).",
       "(a) exhaustive over the abstract table; (b) quick: 27k states, ~11k behaviours exported, ~230 node behaviours on real code in 4 "
       "populations; thorough: 168k states, ~5800 node behaviours, 16 populations; one shard, <= 12 identities; restarts / forks at block "
       "boundaries only; RPC entry points and flip/key gossip not driven (transactions signed with the repository's encoders); blocks "
@@ -177,7 +180,7 @@ check("C16", "model_checking",
       "1..3 flips per author, and exports the layouts; the REAL GetAuthorsDistribution / GetFlipsDistribution / "
       "calculateCeremonyCandidates run on each layout x seeds x quotas (alone and inside a two-shard call) and on seeded larger layouts "
       "(7..600 candidates hitting the fallback paths), real key packages go through the real KeysPool and every candidate tries every "
-      "flip; TLC validates the recorded outputs against the relation.",
+      "flip; TLC validates the recorded outputs against the relation. Growth module KeysPool.tla: publication and delivery of flip keys through the key pools of 2-4 real nodes (timing, admission, delivery orders, sync caps, epoch change, restarts; 20 clauses).",
       "the Go PRNG and queue rotation are not modelled (any admissible outcome is accepted); fairness of the distribution and "
       "qualifyFlips are outside; one recorded known finding (package over the size limit for few authors / many candidates)",
       "TLA+ relation over all small layouts + real lottery and key packages on each + TLC trace validation", "DESIGN.md#c16")
